@@ -56,6 +56,8 @@ def focus_opts(focus: str, ch: Choices, known: dict, params: dict) -> dict:
     o = {"gcc_zero_cap": not known.get("gcc_zero_cap_excluded", False)}
     if focus == "C10":
         o["force_cons"] = 1
+    if focus in ("C01", "C02", "C03", "C09", "C16", "C17", "C08", "C04", "C07", "C10"):
+        o["pad_chance"] = 30  # one run in 30: all real indices beyond 254..300 instantiated padding domains
     if params.get("types"):
         o["types"] = params["types"].split(",") if isinstance(params["types"], str) else list(params["types"])
         o["flavour_weights"] = [1, 0, 0]
